@@ -5,6 +5,7 @@ import (
 	"go/ast"
 	"go/token"
 	"go/types"
+	"sort"
 	"strings"
 )
 
@@ -65,5 +66,158 @@ func init() {
 		fmt.Fprintf(&e.out, "def poolSizeDivisions : Nat := %d\n", nDiv)
 		fmt.Fprintf(&e.out, "def zeroPoolGuardBeforeDivision : Bool := %v\n",
 			guardPos != token.NoPos && (divPos == token.NoPos || guardPos < divPos))
+
+		// ---- which pods count: the `for ... range podMetas` loops of adjustByCPUSet and calcBECPUSet.
+		// number of `continue` guards and whether anything about the pod's lifecycle is consulted.
+		lifecycleWords := map[string]bool{"DeletionTimestamp": true, "DeletionGracePeriodSeconds": true, "Phase": true,
+			"IsPodTerminated": true, "IsPodTerminating": true, "PodSucceeded": true, "PodFailed": true, "PodRunning": true, "PodPending": true}
+		podLoop := func(fn string, lean string) {
+			fd := e.funcDecl(d, "CPUSuppress", fn)
+			nLoops, nCont, life := 0, 0, false
+			if fd == nil || fd.Body == nil {
+				e.fail("%s not found", fn)
+			} else {
+				ast.Inspect(fd.Body, func(n ast.Node) bool {
+					rs, ok := n.(*ast.RangeStmt)
+					if !ok || norm(rs.X) != "podMetas" {
+						return true
+					}
+					nLoops++
+					ast.Inspect(rs.Body, func(m ast.Node) bool {
+						switch v := m.(type) {
+						case *ast.BranchStmt:
+							if v.Tok == token.CONTINUE || v.Tok == token.BREAK || v.Tok == token.GOTO {
+								nCont++
+							}
+						case *ast.ReturnStmt:
+							nCont++
+						case *ast.Ident:
+							if lifecycleWords[v.Name] {
+								life = true
+							}
+						}
+						return true
+					})
+					return false
+				})
+			}
+			if nLoops != 1 {
+				e.fail("%s: expected exactly one loop over podMetas, found %d", fn, nLoops)
+			}
+			fmt.Fprintf(&e.out, "def %sPodLoopExits : Nat := %d\n", lean, nCont)
+			fmt.Fprintf(&e.out, "def %sPodLoopReadsLifecycle : Bool := %v\n", lean, life)
+		}
+		podLoop("adjustByCPUSet", "adjust")
+		podLoop("calcBECPUSet", "recover")
+
+		// ---- the filters calculateBESuppressCPU hands to CalculateFilterPodsUsed (last two arguments)
+		podFilter, appFilter := "?", "?"
+		if fd := e.funcDecl(d, "CPUSuppress", "calculateBESuppressCPU"); fd == nil || fd.Body == nil {
+			e.fail("calculateBESuppressCPU not found")
+		} else {
+			ast.Inspect(fd.Body, func(n ast.Node) bool {
+				if c, ok := n.(*ast.CallExpr); ok && strings.HasSuffix(norm(c.Fun), "CalculateFilterPodsUsed") && len(c.Args) >= 2 {
+					podFilter, appFilter = norm(c.Args[len(c.Args)-2]), norm(c.Args[len(c.Args)-1])
+				}
+				return true
+			})
+		}
+		fmt.Fprintf(&e.out, "def budgetPodFilter : String := %s\n", leanStr(podFilter))
+		fmt.Fprintf(&e.out, "def budgetHostAppFilter : String := %s\n", leanStr(appFilter))
+
+		// ---- helpers.NonBEHostAppFilter / NonBEPodFilter: a single `return a || b || c` (resp. `a && b`); operands sorted
+		chain := func(dir, fn string, op token.Token, lean string) {
+			var parts []string
+			fd := e.funcDecl(dir, "", fn)
+			if fd == nil || fd.Body == nil || len(fd.Body.List) != 1 {
+				e.fail("%s is not a single-statement function", fn)
+			} else if rs, ok := fd.Body.List[0].(*ast.ReturnStmt); !ok || len(rs.Results) != 1 {
+				e.fail("%s is not a single return", fn)
+			} else {
+				var walk func(x ast.Expr)
+				walk = func(x ast.Expr) {
+					if p, ok := x.(*ast.ParenExpr); ok {
+						walk(p.X)
+						return
+					}
+					if b, ok := x.(*ast.BinaryExpr); ok && b.Op == op {
+						walk(b.X)
+						walk(b.Y)
+						return
+					}
+					parts = append(parts, norm(x))
+				}
+				walk(rs.Results[0])
+			}
+			sort.Strings(parts)
+			qs := make([]string, len(parts))
+			for i, p := range parts {
+				qs[i] = leanStr(p)
+			}
+			fmt.Fprintf(&e.out, "def %s : List String := [%s]\n", lean, strings.Join(qs, ", "))
+		}
+		hd := "pkg/koordlet/qosmanager/helpers"
+		chain(hd, "NonBEHostAppFilter", token.LOR, "hostAppFilterDisjuncts")
+		chain(hd, "NonBEPodFilter", token.LAND, "podFilterConjuncts")
+
+		// ---- adjustByCfsQuota: both the 1 % bypass and the 10 % step test exclude the unset quota (-1)
+		bypassUnset, stepUnset := false, false
+		if fd := e.funcDecl(d, "CPUSuppress", "adjustByCfsQuota"); fd == nil || fd.Body == nil {
+			e.fail("adjustByCfsQuota not found")
+		} else {
+			ast.Inspect(fd.Body, func(n ast.Node) bool {
+				if v, ok := n.(*ast.IfStmt); ok {
+					c := norm(v.Cond)
+					g := strings.Contains(c, "&&currentBeQuota!=beUnsetQuota") && !strings.Contains(c, "||")
+					if strings.Contains(c, "<minQuotaDelta") {
+						bypassUnset = g
+					}
+					if strings.Contains(c, ">beMaxIncreaseCPUQuota") {
+						stepUnset = g
+					}
+				}
+				return true
+			})
+		}
+		fmt.Fprintf(&e.out, "def quotaBypassExcludesUnset : Bool := %v\n", bypassUnset)
+		fmt.Fprintf(&e.out, "def quotaStepExcludesUnset : Bool := %v\n", stepUnset)
+
+		// ---- applyBESuppressCPUSet: method calls on r in the static branch (in order) and in the else branch
+		var staticCalls, otherCalls []string
+		if fd := e.funcDecl(d, "CPUSuppress", "applyBESuppressCPUSet"); fd == nil || fd.Body == nil {
+			e.fail("applyBESuppressCPUSet not found")
+		} else {
+			calls := func(b ast.Node) []string {
+				var out []string
+				ast.Inspect(b, func(n ast.Node) bool {
+					if c, ok := n.(*ast.CallExpr); ok {
+						if f := norm(c.Fun); strings.HasPrefix(f, "r.") && !strings.HasPrefix(f, "r.statesInformer") {
+							out = append(out, strings.TrimPrefix(f, "r."))
+						}
+					}
+					return true
+				})
+				return out
+			}
+			ast.Inspect(fd.Body, func(n ast.Node) bool {
+				if v, ok := n.(*ast.IfStmt); ok && norm(v.Cond) == "kubeletPolicy.Policy==apiext.KubeletCPUManagerPolicyStatic" {
+					staticCalls = calls(v.Body)
+					if v.Else != nil {
+						otherCalls = calls(v.Else)
+					}
+					return false
+				}
+				return true
+			})
+		}
+		q := func(xs []string) string {
+			qs := make([]string, len(xs))
+			for i, x := range xs {
+				qs[i] = leanStr(x)
+			}
+			return "[" + strings.Join(qs, ", ") + "]"
+		}
+		fmt.Fprintf(&e.out, "def staticPolicyCalls : List String := %s\n", q(staticCalls))
+		fmt.Fprintf(&e.out, "def otherPolicyCalls : List String := %s\n", q(otherCalls))
 	}
 }
